@@ -860,8 +860,18 @@ def gen_minimality_history(rnd, sid, feat=None):
             sname = rnd.choice(sorted(h.sources)); h.add(Step('touch', 'step touch %s' % hx(sname), path=sname)); ch = ('source', sname)
         elif r < 0.6:
             sname = rnd.choice(sorted(h.sources)); h.edit(sname, 'common' if rnd.random() < 0.1 else 'm.%d' % rnd.randrange(1000000)); ch = ('source', sname)
-        elif r < 0.75 and ne:
+        elif r < 0.72 and ne:
             e = rnd.choice(ne); o = rnd.choice(e.outs); h.add(Step('rm', 'step rm %s' % hx(o), path=o)); ch = ('edge', e.idx, o)
+        elif r < 0.75 and ne:
+            # the statement gains an output whose file already lies around: there is no log record for it, so exactly this
+            # statement (and what its rewritten outputs feed) has to run
+            es = [e for e in ne if not e.deps and not e.depfile and not e.generator and e.idx < 900]
+            if not es: continue
+            e = rnd.choice(es); name = 'xo%d_%d' % (e.idx, len(e.outs))
+            h.add(Step('edit', 'step edit %s %s' % (hx(name), hx('lying-around')), path=name))
+            if rnd.random() < 0.5: e.outs.append(name); e.n_imp_out += 1
+            else: e.outs.insert(len(e.outs) - e.n_imp_out, name)
+            h.rewrite_manifest(); ch = ('edge', e.idx, name)
         elif r < 0.9 and ne:
             e = rnd.choice(ne); e.ver += 1; h.rewrite_manifest(); ch = ('cmd', e.idx)
         else:
